@@ -1,5 +1,5 @@
-import MahfModel.Model.Determinism
-open MahfModel MahfModel.Determinism
+import MahfModel.Model.DeterminismMeasure
+open MahfModel MahfModel.Determinism MahfModel.DeterminismMeasure
 
 /-- Digest cases: there is no model prediction to compare (`agree` is vacuously true); the property's
 predicate is "all digests of the case are equal, and they are digests of completed runs". -/
@@ -37,6 +37,11 @@ def c08 (input implOut : Sexp) : Option Verdict := do
              cls := if !gensOk then "rng-replaced" else v.cls,
              model := .list [.atom "exp-user", genModel, v.model] }
     | _ => none
+  | .list (.atom "measure" :: _) =>
+    -- the diversity measures on prepared solutions: K = the model's left folds (relative 1e-9) vs. the plain
+    -- call; O = the value is bit for bit the same from the main thread and inside every pool
+    let (model, ok, same) ← predictMeasure input implOut
+    pure { agree := ok, holds := same, cls := if !same then "thread-dependent" else if ok then "-" else "wrong-value", model }
   | .list (.atom "evaluate" :: _) =>
     -- direct evaluator calls on prepared populations: K = model (evalSeq / evalPar along the witness
     -- schedule, legal witness) vs. code; O = parallel result equals sequential result (code vs. code)
